@@ -17,7 +17,7 @@ import (
 
 func runUnrolled(cfg *Config) *Report {
 	rep := newReport()
-	rep.Rule = "ground lists of 0..4 elements (repeats) x first argument {query variable, ground, partial list} x relation argument {==, succ, finite table}; MemberOUnrolled / MapOUnrolled / MapODoubleUnrolled once, and one unrolling applied twice in a conjunction with two relation arguments; all answers; non-trivial = the list has >= 2 elements; distinct by printed case"
+	rep.Rule = "ground lists of 0..4 elements (repeats), and for MemberOUnrolled also lists whose elements include the query variable and a variable bound in the same conjunction, x first argument {query variable, ground, partial list} x relation argument {==, succ, finite table}; MemberOUnrolled / MapOUnrolled / MapODoubleUnrolled once, and one unrolling applied twice in a conjunction with two relation arguments; all answers; non-trivial = the list has >= 2 elements; distinct by printed case"
 	cf := newCaseFile("From Coq Require Import List NArith ZArith.\nFrom GMK Require Import Term Unify Goal Stream Reify ListRel Unrolled Reflect GCore CorrBase Corr01 Corr02 Corr08.\nFrom GMK.gen Require Import RelMini.", "case08", "check08")
 	r := newRand(cfg.Seed)
 	runAll := func(mk func(q *ast.SExpr) micro.Goal) []string {
@@ -65,7 +65,7 @@ func runUnrolled(cfg *Config) *Report {
 		default:
 			xArg = abstractList(r, groundElems(r, n), 1)
 		}
-		kind := r.Intn(6)
+		kind := r.Intn(9)
 		if cfg.Only >= 0 && cfg.Only != i {
 			cf.add("CReifyS TNil []")
 			rep.CaseDesc = append(rep.CaseDesc, "")
@@ -94,6 +94,69 @@ func runUnrolled(cfg *Config) *Report {
 			real = func(q *ast.SExpr) micro.Goal { return mini.MapODoubleUnrolled(mapFun(f1), listT)(x(q)) }
 			rec = func(q *ast.SExpr) micro.Goal { return mini.MapO(mapFun(f1), x(q), listT) }
 			model = fmt.Sprintf("(mapo_double_unrolled %s %s %s)", coqFcall(f1), coqList(carsCoq), xArg.coq())
+		case 6, 7, 8:
+			// the unrolled list is a Go VALUE and may contain logic variables: the query variable, or a variable p of the
+			// enclosing conjunction that is bound (before or after the membership goal) to an atom.  env: PB 0 = p, PB 1 = q.
+			pcars := make([]*PT, n)
+			pcoq := make([]string, n)
+			for k := range pcars {
+				switch r.Intn(4) {
+				case 0:
+					pcars[k] = ptB(0)
+				case 1:
+					pcars[k] = ptB(1)
+				default:
+					pcars[k] = cars[k]
+				}
+				pcoq[k] = pcars[k].coq()
+			}
+			var e *PT
+			switch r.Intn(4) {
+			case 0:
+				e = ptB(1)
+			case 1:
+				e = ptB(0)
+			default: // a constant, most often one that occurs in the list
+				if n > 0 && r.Intn(4) != 0 {
+					e = cars[r.Intn(n)]
+				} else {
+					e = ptAtom(pick(r, listElems))
+				}
+			}
+			var bound *PT
+			if n > 0 && r.Intn(2) == 0 {
+				bound = cars[r.Intn(n)]
+			} else {
+				bound = ptAtom(pick(r, listElems))
+			}
+			if e.K != "b" && r.Intn(2) == 0 {
+				bound = e
+			}
+			before := kind != 8
+			plist := ptList(pcars...)
+			desc = fmt.Sprintf("fresh p: %s MemberOUnrolled(%s)(%s) %s", map[bool]string{true: "p == " + bound.show() + ",", false: ""}[before], plist.show(), e.show(),
+				map[bool]string{true: "", false: ", p == " + bound.show()}[before])
+			mkG := func(member func(env []*ast.SExpr) micro.Goal) func(q *ast.SExpr) micro.Goal {
+				return func(q *ast.SExpr) micro.Goal {
+					return micro.CallFresh(func(p *ast.SExpr) micro.Goal {
+						env := []*ast.SExpr{p, q}
+						eq := micro.EqualO(p, bound.close(env))
+						if before {
+							return micro.Conj(eq, member(env))
+						}
+						return micro.Conj(member(env), eq)
+					})
+				}
+			}
+			real = mkG(func(env []*ast.SExpr) micro.Goal { return mini.MemberOUnrolled(plist.close(env))(e.close(env)) })
+			rec = mkG(func(env []*ast.SExpr) micro.Goal { return mini.MemberO(e.close(env), plist.close(env)) })
+			mem := fmt.Sprintf("(membero_unrolled %s %s)", coqList(pcoq), e.coq())
+			eqc := fmt.Sprintf("(GEq (PB 0) %s)", bound.coq())
+			if before {
+				model = fmt.Sprintf("(GFresh (GConj %s %s))", eqc, mem)
+			} else {
+				model = fmt.Sprintf("(GFresh (GConj %s %s))", mem, eqc)
+			}
 		default:
 			// one unrolling, two applications in one conjunction: q = (a b), m(f1, a), m(f2, b)
 			double := kind == 5
@@ -137,7 +200,7 @@ func runUnrolled(cfg *Config) *Report {
 		rep.CaseDesc = append(rep.CaseDesc, desc)
 		rep.CaseObs = append(rep.CaseObs, obs)
 		rep.sample(desc + " => " + obs)
-		rep.hist([]string{"MemberOUnrolled", "MapOUnrolled", "MapODoubleUnrolled", "MapOUnrolled twice", "MapOUnrolled twice", "MapODoubleUnrolled twice"}[kind])
+		rep.hist([]string{"MemberOUnrolled", "MapOUnrolled", "MapODoubleUnrolled", "MapOUnrolled twice", "MapOUnrolled twice", "MapODoubleUnrolled twice", "MemberOUnrolled partial list", "MemberOUnrolled partial list", "MemberOUnrolled partial list"}[kind])
 		rep.hist(fmt.Sprintf("answers=%d", min(len(got), 5)))
 		if n >= 2 {
 			rep.nontrivial(desc)
